@@ -300,6 +300,13 @@ fn run_trial(grid: Grid, g: &Graph, scripts: Vec<Vec<Query>>, expected_cold: &Ha
             continue;
         }
         if last_change.elapsed() > stall_limit {
+            // Under Miri all program threads are simulated on one OS thread - the one this detector runs on - so the
+            // process's task list says nothing about them, and one query can take minutes. Miri detects a deadlock of
+            // the evaluated program itself and ends the run with an error (reported as a worker death).
+            if cfg!(miri) {
+                last_change = Instant::now();
+                continue;
+            }
             let st1 = thread_states();
             std::thread::sleep(Duration::from_millis(300));
             let st2 = thread_states();
